@@ -23,10 +23,11 @@ def load_known():
         if not line.startswith("finding:"):
             continue
         body = line[len("finding:"):].strip()
-        head, _, text = body.partition("::")
-        parts = dict(p.split("=", 1) for p in head.split() if "=" in p)
-        if "property" in parts and "key" in parts:
-            findings[(parts["property"], parts["key"])] = text.strip()
+        head, _, text = body.partition(" :: ")
+        import re as _re
+        m = _re.match(r"^property=(\S+)\s+key=(.*)$", head.strip())      # a key may contain spaces (type paths such as `<X as Trait>::f`)
+        if m:
+            findings[(m.group(1), m.group(2).strip())] = text.strip()
     return findings
 
 
